@@ -43,12 +43,6 @@ Proof.
 Qed.
 
 (* ---------------------------------------------------------------- one WriteForLine *)
-Lemma ecol_0 : forall s, ccol s = 0 -> ecol tc s = 0.
-Proof.
-  intros s H. unfold ecol. rewrite H. destruct (dec tc); cbn [andb]; [|reflexivity].
-  destruct (Nat.leb_spec (width tc) 0); lia.
-Qed.
-
 Lemma write_step : forall s sc F line t s' seg,
   Inv s sc F -> text_ok t -> tw_write c s line t = (s', seg) ->
   exists sc', run tc (sc, Ground) (render seg) = (sc', Ground) /\
@@ -62,22 +56,25 @@ Proof.
   rewrite Ic, Ihd in W. cbn [andb orb] in W. inversion W; subst s' seg; clear W.
   set (a := line - tw_cursor s). set (b := tw_cursor s - line).
   set (v := visible (wl t)) in *.
-  assert (Hok : Forall cmd_ok
-            ((if negb (tw_hidden s) then [HideCur] else []) ++
-             (repeat LF a ++ repeat (Up 1%N) b ++ [CR]) ++ [EraseEOL] ++ [Text (wl t)])).
-  { apply Forall_app. split; [destruct (negb (tw_hidden s)); repeat constructor|].
-    apply Forall_app. split; [apply goto_cmd_ok|].
-    constructor; [exact Logic.I|]. constructor; [apply wlnw_wf; exact Hwf | constructor]. }
-  eexists. split; [exact (run_render tc _ sc Hok)|].
-  rewrite !fold_left_app.
-  set (sc1 := fold_left (interp tc) (if negb (tw_hidden s) then [HideCur] else []) sc).
+  set (pre := if negb (tw_hidden s) then [HideCur] else []).
+  set (mv := repeat LF a ++ repeat (Up 1%N) b ++ [CR]).
+  assert (Hok : Forall cmd_ok (pre ++ mv)).
+  { apply Forall_app. split; [subst pre; destruct (negb (tw_hidden s)); repeat constructor|].
+    apply goto_cmd_ok. }
+  set (sc1 := fold_left (interp tc) pre sc).
   assert (H1 : rows sc1 = rows sc /\ crow sc1 = crow sc /\ cvis sc1 = false /\ hides sc1 = 1).
-  { subst sc1. destruct (tw_hidden s); cbn in *; auto. }
+  { subst sc1 pre. destruct (tw_hidden s); cbn in *; auto. }
   destruct H1 as (R1 & C1 & V1 & Hd1).
-  rewrite goto_split.
   set (sc2 := mkscr (rows sc1) (crow sc1 + a - b) 0 (cvis sc1) (hides sc1)).
   assert (Hrow2 : crow sc2 = line) by (subst sc2 a b; cbn; lia).
-  cbn [fold_left interp]. fold v.
+  assert (E12 : run tc (sc, Ground) (render (pre ++ mv)) = (sc2, Ground)).
+  { rewrite (run_render tc _ sc Hok), fold_left_app. fold sc1. subst mv. rewrite goto_effect. reflexivity. }
+  assert (Erun : run tc (sc, Ground) (render ((pre ++ mv) ++ [EraseEOL] ++ [Text (wl t)]))
+                 = (fold_left (print tc) v (erase_line tc 0 sc2), Ground)).
+  { rewrite render_app, run_app, E12. unfold render. cbn [flat_map app]. rewrite app_nil_r, run_app.
+    rewrite (run_erase_at0 tc sc2 eq_refl). apply run_text. apply wlnw_wf. exact Hwf. }
+  exists (fold_left (print tc) v (erase_line tc 0 sc2)).
+  split; [rewrite <- Erun; rewrite <- app_assoc; reflexivity|].
   set (E := erase_line tc 0 sc2).
   assert (He0 : ecol tc sc2 = 0) by (apply ecol_0; reflexivity).
   assert (ER : forall l, nth l (rows E) [] = if Nat.eqb l line then [] else nth l (rows sc) []).
